@@ -92,12 +92,12 @@ fn notify_body(inside: bool) {
                 && vv_eq(&n.causality, &o.causality) && vv_eq(&n.released, &o.released) && vv_eq(&n.dpor_vv, &o.dpor_vv));
         } else if o.op.map(|x| x.0) == Some(0) && o.st == StView::Blocked {
             oblige!("C08.notify.wakes_blocked_waiter_with_notifiers_view",
-                n.st == (StView::Runnable { unparked: false }) && is_join(&n.causality, &o.causality, &oa.causality)
+                n.st == woken(&o) && !n.pending_unpark && is_join(&n.causality, &o.causality, &oa.causality)
                 && vv_eq(&n.released, &o.released) && vv_eq(&n.dpor_vv, &o.dpor_vv) && n.op == o.op);
         } else if o.op.map(|x| x.0) == Some(0) {
-            // a waiter that is still runnable stays runnable (whether notify may hand it a park token is
-            // not decided here: the suspected defect could not be reproduced with a real program, DESIGN §6)
-            oblige!("C08.notify.runnable_waiter_stays_runnable", matches!(n.st, StView::Runnable { .. }));
+            // a waiter that is still runnable receives the view but no park token (only unpark creates tokens)
+            oblige!("C08.notify.creates_no_park_token", n.st == o.st && n.pending_unpark == o.pending_unpark
+                && is_join(&n.causality, &o.causality, &oa.causality));
         } else {
             oblige!("C08.notify.frame_other_threads", th_view_eq(&o, &n));
         }
@@ -107,7 +107,7 @@ fn notify_body(inside: bool) {
 }
 
 crate::with_fire_forbidden! {
-//@ props=C08,C04,C05 tier=quick timeout=1800 fns=src/rt/notify.rs::Notify::notify,src/rt/object.rs::Ref::branch_opaque,src/rt/object.rs::Ref::set_action,src/rt/thread.rs::Set::split_active bounded=threads:N=3 models=Execution::schedule=probe,Scheduler::switch=counting,VersionVec::join=s_vv_models_agree
+//@ props=C08,C04,C05 tier=quick timeout=1800 fns=src/rt/notify.rs::Notify::notify,src/rt/thread.rs::Thread::notify_from,src/rt/object.rs::Ref::branch_opaque,src/rt/object.rs::Ref::set_action,src/rt/thread.rs::Set::split_active bounded=threads:N=3 models=Execution::schedule=probe,Scheduler::switch=counting,VersionVec::join=s_vv_models_agree
 #[kani::proof]
 #[kani::unwind(7)]
 #[kani::stub(crate::rt::execution::Execution::schedule, crate::rt::execution::Execution::schedule_probe_model)]
